@@ -18,7 +18,7 @@ import random
 import shutil
 import tempfile
 import time
-from concurrent.futures import ProcessPoolExecutor
+from concurrent.futures import ProcessPoolExecutor, ThreadPoolExecutor
 import multiprocessing
 
 from .. import tlc, tlaval
@@ -57,7 +57,7 @@ HANG_POOL = 25.0        # how long a hanging task sleeps in a worker (killed by 
 TIMEOUT_SEQ = 1         # cpus = 1: the timeout is ignored by design, the hanging task really sleeps
 HANG_SEQ = 1.2
 GENEROUS = 120          # timeout handed over when nothing hangs
-BARRIER_DEADLINE = 10.0  # a task waiting longer than this for its predecessor gives up: schedule not enforceable
+BARRIER_DEADLINE = 30.0  # a task waiting longer than this for its predecessor gives up: schedule not enforceable
 POLL = 0.002
 SETTLE = 0.003
 RECORD_LENGTH = 90
@@ -256,7 +256,7 @@ def _shell(case_dir, task, wait_for, code):
     wait = ""
     if wait_for:
         wait = (f"i=0; while [ ! -e {case_dir}/done_{wait_for} ]; do sleep 0.01; i=$((i+1)); "
-                f"if [ -e {case_dir}/stuck ] || [ $i -gt 800 ]; then : > {case_dir}/stuck; exit 97; fi; done; ")
+                f"if [ -e {case_dir}/stuck ] || [ $i -gt 2400 ]; then : > {case_dir}/stuck; exit 97; fi; done; ")
     return ["sh", "-c", f"{wait}echo {task} >> {case_dir}/ran; : > {case_dir}/done_{task}; exit {code}"]
 
 
@@ -364,15 +364,32 @@ def _plain(value):
     return value
 
 
+def _finished_blocks(path):
+    """ The text blocks of a TLC dump whose state is finished (unfinished ones are not parsed: most of a dump). """
+    block = []
+    with open(path, encoding="utf-8") as handle:
+        for line in handle:
+            if line.startswith("State "):
+                if block:
+                    yield "".join(block)
+                block = []
+            else:
+                block.append(line)
+    if block:
+        yield "".join(block)
+
+
 def _schedules(run):
     """ Finished states of a Pool_MC dump -> [(config, completion order)] (one per schedule). """
     seen = {}
-    for state in tlaval.read_dump(run.dump_path):
-        if state["p"]["caller"] == "waiting":
+    for text in _finished_blocks(run.dump_path):
+        if 'caller |-> "waiting"' in text or not text.strip():
             continue
-        conf = _plain(state["c"])
+        start_c, start_p = text.index("c = "), text.index("/\\ p = ")
+        conf = _plain(tlaval.parse(text[start_c + 4:start_p]))
+        state = tlaval.parse(text[start_p + 7:])
         conf["out"] = list(conf["out"]) if not isinstance(conf["out"], dict) else [conf["out"][k] for k in sorted(conf["out"])]
-        sched = list(_plain(state["p"]["hist"]))
+        sched = list(_plain(state["hist"]))
         seen[canon([conf, sched])] = (conf, sched)
     return [seen[key] for key in sorted(seen)]
 
@@ -584,22 +601,33 @@ def run(ctx):
         small_params = {"nset": "0, 1, 2, 3, 4, 5", "cpuset": "1, 2, 3, 4", "maxfaults": 5}
         chunk_params = {"nset": "9, 10", "cpuset": "2", "maxfaults": 2}
     actions = ["Take", "Finish", "Raise", "Collect", "Timeout", "SeqStep"]
-    small = tlc.run("Pool_MC", MC_CFG % dict(small_params, variant="pool", checks=POOL_CHECKS), ctx.workdir,
-                    dump=True, coverage=True, tag="_small", timeout=3000)
+    tiny = {"nset": "0, 1, 2, 3", "cpuset": "1, 2, 3", "maxfaults": 3}
+    share = max(2, CPUS // 3)
+    plans = {
+        "small": lambda: tlc.run("Pool_MC", MC_CFG % dict(small_params, variant="pool", checks=POOL_CHECKS), ctx.workdir,
+                                 dump=True, coverage=True, tag="_small", timeout=3000, heap="6g", workers=share),
+        "chunked": lambda: tlc.run("Pool_MC", MC_CFG % dict(chunk_params, variant="pool", checks=POOL_CHECKS), ctx.workdir,
+                                   dump=True, coverage=True, tag="_chunked", timeout=3000, heap="6g", workers=share),
+        "unordered": lambda: tlc.run("Pool_MC", MC_CFG % dict(tiny, variant="unordered",
+                                                              checks="INVARIANT ResultsInArgumentOrder"),
+                                     ctx.workdir, tag="_unordered", heap="2g", workers=2),
+        "drop": lambda: tlc.run("Pool_MC", MC_CFG % dict(tiny, variant="drop", checks="INVARIANT FailureSurfaces"),
+                                ctx.workdir, tag="_drop", heap="2g", workers=2),
+        "recs": lambda: tlc.run("Pool_RecMC", REC_CFG, ctx.workdir, dump=True, coverage=True, tag="_rec", heap="2g",
+                                workers=2),
+    }
+    tlc.stage(ctx.workdir)
+    with ThreadPoolExecutor(max_workers=len(plans)) as pool:     # the five TLC runs are independent
+        futures = {name: pool.submit(plan) for name, plan in plans.items()}
+        runs = {name: future.result() for name, future in futures.items()}
+    small, chunked, recs = runs["small"], runs["chunked"], runs["recs"]
     ctx.model(small, f"Pool_MC all completion orders, n in {{{small_params['nset']}}}, cpus in {{{small_params['cpuset']}}}, "
                      "every outcome vector", vacuity=actions)
-    chunked = tlc.run("Pool_MC", MC_CFG % dict(chunk_params, variant="pool", checks=POOL_CHECKS), ctx.workdir,
-                      dump=True, coverage=True, tag="_chunked", timeout=3000)
     ctx.model(chunked, f"Pool_MC chunks of two tasks, n in {{{chunk_params['nset']}}}, cpus = 2, at most "
                        f"{chunk_params['maxfaults']} failing/hanging tasks", vacuity=["Take", "Finish", "Raise", "Collect"])
-    tiny = {"nset": "0, 1, 2, 3", "cpuset": "1, 2, 3", "maxfaults": 3}
-    wrong = tlc.run("Pool_MC", MC_CFG % dict(tiny, variant="unordered", checks="INVARIANT ResultsInArgumentOrder"),
-                    ctx.workdir, tag="_unordered")
-    ctx.expect_violation(wrong, "ResultsInArgumentOrder", "Pool_MC results collected in completion order (negative control)")
-    wrong = tlc.run("Pool_MC", MC_CFG % dict(tiny, variant="drop", checks="INVARIANT FailureSurfaces"), ctx.workdir,
-                    tag="_drop")
-    ctx.expect_violation(wrong, "FailureSurfaces", "Pool_MC failed chunk dropped from the result (negative control)")
-    recs = tlc.run("Pool_RecMC", REC_CFG, ctx.workdir, dump=True, coverage=True, tag="_rec")
+    ctx.expect_violation(runs["unordered"], "ResultsInArgumentOrder",
+                         "Pool_MC results collected in completion order (negative control)")
+    ctx.expect_violation(runs["drop"], "FailureSurfaces", "Pool_MC failed chunk dropped from the result (negative control)")
     ctx.model(recs, "Pool_RecMC record contents crossing the process boundary", vacuity=["Check"])
 
     ctx.notes["phase_s"] = {"model_checking": ctx.timer.elapsed()}
